@@ -88,6 +88,13 @@ class Climatology(Adapter):
                 a, b = m["tspan"]
                 if m.get("tfmt") == "dt64":
                     d["tspan"] = (np.datetime64(int(a), "s"), np.datetime64(int(b), "s"))
+                elif m.get("tfmt") == "mdy":        # month/day/year text: its alphabetical order is not the date order
+                    d["tspan"] = tuple(of_epoch(int(x)).strftime("%m/%d/%Y %H:%M:%S") for x in (a, b))
+                elif m.get("tfmt") == "datetime":
+                    d["tspan"] = (of_epoch(int(a)), of_epoch(int(b)))
+                elif m.get("tfmt") == "timestamp":
+                    import pandas as pd
+                    d["tspan"] = [pd.Timestamp(of_epoch(int(a))), pd.Timestamp(of_epoch(int(b)))]
                 else:
                     d["tspan"] = (of_epoch(int(a)).isoformat(), of_epoch(int(b)).isoformat())
             else:
@@ -161,7 +168,7 @@ def gen_member(rng, kind="any", zspan="any", fspan="any"):
         if rng.random() < 0.15:
             b = a
         m["tspan"] = [a, b]
-        m["tfmt"] = rng.choice(["iso", "dt64"])
+        m["tfmt"] = rng.choice(["iso", "dt64", "mdy", "datetime", "timestamp"])
     else:
         vals = sorted({pv(kind, s) for s in POOL})
         a, b = F(rng.choice(vals)), F(rng.choice(vals))
